@@ -137,6 +137,19 @@ def parse_expr(p, minprec=0, nostruct=False):
 
 
 def parse_unary(p, nostruct):
+    if p.at("|") or p.at("||"):
+        params = []
+        if not p.eat("||"):
+            p.expect("|")
+            while not p.at("|"):
+                p.eat("&"); p.eat("mut")
+                params.append(p.ident())
+                if p.eat(":"):
+                    parse_type(p)
+                if not p.eat(","):
+                    break
+            p.expect("|")
+        return ("closure", params, parse_expr(p, 0, nostruct))
     if p.eat("-"):
         return ("neg", parse_unary(p, nostruct))
     if p.eat("!"):
@@ -198,6 +211,10 @@ def parse_primary(p, nostruct):
     if v == "(" and k == "op":
         p.next()
         e = parse_expr(p)
+        if p.at("..") or p.at("..="):
+            incl = p.next()[1] == "..="
+            hi = parse_expr(p)
+            e = ("range", e, hi, incl)
         p.expect(")")
         return ("paren", e)
     if k == "id" and v == "if":
@@ -310,7 +327,15 @@ def parse_stmt(p):
         return ("return", e)
     if k == "id" and v == "for":
         p.next()
-        var = p.ident()
+        if p.at("("):
+            p.next()
+            names = [p.ident()]
+            while p.eat(","):
+                names.append(p.ident())
+            p.expect(")")
+            var = tuple(names)
+        else:
+            var = p.ident()
         p.expect("in")
         it = parse_expr(p, nostruct=True)
         if p.at("..") or p.at("..="):
